@@ -487,6 +487,17 @@ def run(ctx):
     from .nonzero import movers_of
     ctx.rule("R11.9", "a funding transfer that is capped at the vault balance sends min(balance, amount): the balance only when it is the smaller, the amount only when the balance covers it", 1)
     movers = movers_of(ctx)
+    # the cap concerns what LEAVES the vault: the constructor of the insurance-fund Withdraw (money coming in) is not one
+    for k_ in list(movers):
+        try:
+            sites_ = model.reachable_submsgs(ix, w.fns[k_], {})
+        except Exception:
+            sites_ = []
+        for s_ in sites_:
+            im_ = s_.inner_msg()
+            mv_ = ix.msg_variant(im_) if im_ is not None else None
+            if mv_ and mv_[1] == "Withdraw":
+                movers.pop(k_, None)
     n9 = 0
 
     def le_facts(fs):
